@@ -302,6 +302,62 @@ def integer_containers(ctx, T, db, r, n_cases):
                 ctx.violation("int-container:value:%s:%s/%s" % (opn, ka, kb), dict(case, got=got, scalars=[s.GetValue() for s in ref], result_unit=res.GetUnit()), replay=case)
 
 
+def two_databases(ctx):
+    """The same expressions under the shipped table and under another table that gives the same symbols other factors
+    (one after the other, both orders, in one process): under each database every container kind gives what the Scalars of
+    *that* database give, element by element."""
+    import numpy as np
+    from barril.units import Array, FixedArray, Scalar, UnitDatabase
+
+    def alt():
+        d = UnitDatabase()
+        d.AddUnitBase("length", "metre", "m")
+        d.AddUnit("length", "survey centimetre", "cm", "%f*50.0", "%f/50.0")
+        d.AddUnit("length", "survey kilometre", "km", "%f/999.0", "%f*999.0")
+        d.AddUnit("length", "survey mile", "mi", "%f/1609.347", "%f*1609.347")
+        d.AddUnitBase("temperature", "kelvin", "K")
+        d.AddUnit("temperature", "other celsius", "degC", "%f-100.0", "%f+100.0")
+        d.AddCategory("length", "length")
+        d.AddCategory("temperature", "temperature")
+        return d
+
+    vals, other = [1.5, -2.0, 40.0], [3.0, 0.5, -7.0]
+    exprs = [
+        ("GetValues(unit)", lambda mk, u, v: mk(vals, u).GetValues(v), lambda i, u, v: Scalar(vals[i], u).GetValue(v)),
+        ("CreateCopy(unit)", lambda mk, u, v: mk(vals, u).CreateCopy(unit=v).GetValues(), lambda i, u, v: Scalar(vals[i], u).CreateCopy(unit=v).GetValue()),
+        ("a + b", lambda mk, u, v: (mk(vals, u) + mk(other, v)).GetValues(), lambda i, u, v: (Scalar(vals[i], u) + Scalar(other[i], v)).GetValue()),
+        ("a - b", lambda mk, u, v: (mk(vals, u) - mk(other, v)).GetValues(), lambda i, u, v: (Scalar(vals[i], u) - Scalar(other[i], v)).GetValue()),
+        ("a * b", lambda mk, u, v: (mk(vals, u) * mk(other, v)).GetValues(), lambda i, u, v: (Scalar(vals[i], u) * Scalar(other[i], v)).GetValue()),
+        ("a / b", lambda mk, u, v: (mk(vals, u) / mk(other, v)).GetValues(), lambda i, u, v: (Scalar(vals[i], u) / Scalar(other[i], v)).GetValue()),
+    ]
+    kinds = [("list", lambda x, u: Array(list(x), u)), ("tuple", lambda x, u: Array(tuple(x), u)), ("nd", lambda x, u: Array(np.array(x), u)), ("FixedArray[nd]", lambda x, u: FixedArray(3, np.array(x), u)),
+             ("nd32", lambda x, u: Array(np.array(x, dtype=np.float32), u))]  # fmt: skip
+    n = 0
+    for order in (("shipped", "other"), ("other", "shipped")):
+        dbs = {"shipped": table.build("posc"), "other": alt()}
+        for which in order + order[:1]:
+            with table.pushed(dbs[which]):
+                for u, v in (("km", "m"), ("mi", "m"), ("cm", "km"), ("degC", "K"), ("m", "cm")):
+                    for name, arr_fn, sc_fn in exprs:
+                        if "degC" in (u, v) and name in ("a * b", "a / b"):
+                            continue
+                        for kname, mk in kinds:
+                            ctx.ev()
+                            n += 1
+                            case = {"database": which, "asked_in_order": list(order), "expression": name, "u": u, "v": v, "container": kname}
+                            ctx.nt(("two databases", which, name, u, v, kname))
+                            try:
+                                got = [float(t) for t in arr_fn(mk, u, v)]
+                                want = [float(sc_fn(i, u, v)) for i in range(3)]
+                            except Exception as e:
+                                ctx.violation("two-databases:raised:%s" % type(e).__name__, dict(case, error=str(e)[:160]))
+                                continue
+                            rel = 1e-6 if kname == "nd32" else 1e-12
+                            if len(got) != 3 or not all(abs(g - w) <= rel * (abs(w) + abs(g)) + 1e-300 for g, w in zip(got, want)):
+                                ctx.violation("two-databases:array-differs-from-the-scalars-of-the-current-database", dict(case, array=got, scalars=want))
+    ctx.count("expressions evaluated under two databases", n)
+
+
 def run(ctx):
     from barril.units import Array, UnitDatabase
     from barril.units._value_generator import _ValueGenerator
@@ -343,4 +399,6 @@ def run(ctx):
         offset_twins(ctx, T, db, ctx.rng("twins"))
         if ctx.shard == 0:
             large_arrays(ctx, T, db)
+    if ctx.shard == 0:
+        two_databases(ctx)
     ctx.inconclusive_if(probe.COUNTS["Array.__add__"] == 0 or probe.COUNTS["Array.__floordiv__"] == 0 or probe.COUNTS["Array.FromScalars"] == 0, "Array operators never reached")
